@@ -104,9 +104,67 @@ class CFG:
             # when the terminator is the logical operator itself clang reports its LHS;
             # otherwise (IfStmt, loops, ?:) the reported condition may be a whole `A && B`
             base = norm_cond(b.cond, tail=True)
+            base = self._expand_flag(base, bid)
             lit = base if idx == 0 else base.negated()
         self._lits[key] = lit
         return lit
+
+    def _expand_flag(self, lit, bid):
+        """`flag = a == b; ... if (flag)`: the test of a local that has exactly one definition, an atomic pure
+        comparison whose operands are not changed between the definition and the test, IS that comparison."""
+        if lit.kind != "truth" or lit.node.k != "DeclRefExpr" or lit.node.j.get("dk") != "local":
+            return lit
+        v = lit.node.j["name"]
+        if not hasattr(self, "_flagdefs"):
+            d, spoiled = {}, set()
+            for n in self.fn.walk():
+                if n.k == "DeclStmt":
+                    for dd in n.j.get("decls", []):
+                        if dd.get("init", -1) >= 0:
+                            d.setdefault(dd["name"], []).append((self.fn.nodes[dd["init"]], n))
+                elif n.k == "BinaryOperator" and n.j.get("op") == "=" and n.children[0].strip().k == "DeclRefExpr":
+                    d.setdefault(n.children[0].strip().j["name"], []).append((n.children[1], n))
+                elif n.k == "CompoundAssignOperator" or (n.k == "UnaryOperator" and n.j.get("op") in ("++", "--", "&")):
+                    t = n.children[0].strip()
+                    if t.k == "DeclRefExpr":
+                        spoiled.add(t.j["name"])
+            self._flagdefs = (d, spoiled)
+        d, spoiled = self._flagdefs
+        if v in spoiled or len(d.get(v, [])) != 1:
+            return lit
+        rhs, st = d[v][0]
+        r = rhs.strip()
+        inner = r
+        while inner.k == "UnaryOperator" and inner.j.get("op") == "!":
+            inner = inner.children[0].strip()
+        atomic = inner.k == "BinaryOperator" and inner.j.get("op") in ("==", "!=", "<", ">", "<=", ">=")
+        if not atomic or any(x.k == "CallExpr" and x.j.get("callee") not in ("strcmp", "strncmp", "strcasecmp", "strlen", "memcmp") for x in r.walk()):
+            return lit
+        db = self.block_of(st)
+        if db is None or db == bid:
+            pass
+        else:
+            names = set(x.j["name"] for x in r.walk() if x.k == "DeclRefExpr" and x.j.get("dk") in ("local", "param"))
+            after = set()
+            for s2 in self.blocks[db].succs:
+                if s2 is not None:
+                    after |= self.reachable(s2, avoid_blocks=[db])
+            before = self.reachable(bid, avoid_blocks=[db], forward=False)
+            between = (after & before) | {bid}
+            for b2 in between:
+                for n in self.blocks[b2].elems:
+                    t = None
+                    if n.k == "BinaryOperator" and n.j.get("op") == "=":
+                        t = n.children[0]
+                    elif n.k == "CompoundAssignOperator" or (n.k == "UnaryOperator" and n.j.get("op") in ("++", "--")):
+                        t = n.children[0]
+                    if t is not None:
+                        from . import query
+                        root, _sel = query.lvalue_root(t)
+                        if root is not None and root.j.get("name") in names:
+                            return lit
+        inner_lit = norm_cond(r)
+        return inner_lit if lit.pol else inner_lit.negated()
 
     # ---- reachability ----------------------------------------------------------------------
     def reachable(self, start, avoid_blocks=(), avoid_edges=(), forward=True):
@@ -159,7 +217,7 @@ class CFG:
         wp = self.feasible_reach(target_block, lambda lit, b, i: (b, i) in cut, lambda a: _re.match(r"^[A-Za-z_][\w$.]*$", a) is not None, start=start)
         return wp is None, cut
 
-    def feasible_reach(self, target_block, cut_pred, track, start=None):
+    def feasible_reach(self, target_block, cut_pred, track, start=None, nonempty=False):
         """Is target_block reachable from start without using an edge for which cut_pred holds,
         along a path whose literals on the tracked atoms are not contradictory?  `track` is a
         predicate on atoms.  Facts are killed by stores to a variable the atom mentions.
@@ -181,7 +239,7 @@ class CFG:
         while queue:
             cur = queue.pop(0)
             b, facts = cur
-            if b == target_block:
+            if b == target_block and not (nonempty and cur is init):
                 path = []
                 while prev[cur] is not None:
                     path.append(prev[cur][1])
@@ -200,18 +258,23 @@ class CFG:
                     cv = n.children[1].const_value()
                     if cv is not None and track(nm) and n.children[0].strip().k == "DeclRefExpr":
                         fd[nm] = bool(cv)
+                        fd["=" + nm] = cv
                     elif cv is None and track(nm) and n.children[0].strip().k == "DeclRefExpr":
                         src = render(n.children[1])
                         if src in fd and n.children[1].strip().k == "DeclRefExpr":
                             fd[nm] = fd[src]          # copy: a = b
+                            if "=" + src in fd:
+                                fd["=" + nm] = fd["=" + src]
                 elif n.k == "DeclStmt":
                     for d in n.j.get("decls", []):
                         if d.get("init", -1) >= 0 and track(d["name"]):
                             cv = self.fn.nodes[d["init"]].const_value()
                             if cv is not None:
                                 fd[d["name"]] = bool(cv)
+                                fd["=" + d["name"]] = cv
                             else:
                                 fd.pop(d["name"], None)
+                                fd.pop("=" + d["name"], None)
             for i, s in enumerate(self.blocks[b].succs):
                 if s is None:
                     continue
@@ -219,6 +282,14 @@ class CFG:
                 if cut_pred(lit, b, i):
                     continue
                 nf = dict(fd)
+                if lit is not None and lit.kind in ("eq", "lt"):
+                    # a comparison of a variable of known constant value with a constant is decided
+                    lv = fd.get("=" + render(lit.lhs)) if lit.lhs.const_value() is None else lit.lhs.const_value()
+                    rv = fd.get("=" + render(lit.rhs)) if lit.rhs.const_value() is None else lit.rhs.const_value()
+                    if lv is not None and rv is not None and (lit.lhs.const_value() is None or lit.rhs.const_value() is None):
+                        holds = (lv == rv) if lit.kind == "eq" else (lv < rv)
+                        if holds != lit.pol:
+                            continue
                 if lit is not None and track(lit.atom):
                     if lit.atom in nf and nf[lit.atom] != lit.pol:
                         continue            # contradictory path
@@ -228,6 +299,141 @@ class CFG:
                     prev[nxt] = (cur, (b, i))
                     queue.append(nxt)
         return None
+
+    def must_pass(self, a, b):
+        """Does every CONSISTENT path from the entry to node b execute node a first?  (node_dominates, minus
+        the paths whose tests contradict the constants assigned on the way.)"""
+        if self.node_dominates(a, b):
+            return True
+        ba, bb = self.block_of(a), self.block_of(b)
+        if ba is None or bb is None or ba == bb:
+            return False
+        succ = {(x, i): s2 for (x, i, s2) in self.edges()}
+        wp = self.feasible_reach(bb, lambda lit, x, i: succ.get((x, i)) == ba, lambda atom: True)
+        return wp is None
+
+    def required_literals(self, target_block, start=None, expand_locals=True):
+        """Literals that hold on EVERY consistent path from start to target_block.  A required literal `v`
+        (v a local with exactly one definition whose right-hand side is a pure boolean expression) is expanded:
+        the conjuncts of that expression are required too (`ok = a < b && !strcmp(x, y); if (ok) ...`)."""
+        from .cond import norm_cond
+        out = []
+        seen = set()
+        cands = {}
+        for (b, i, s) in self.edges():
+            lit = self.edge_lit(b, i)
+            if lit is not None:
+                cands.setdefault(lit.key(), lit)
+        for key, lit in cands.items():
+            ok, cut = self.all_paths_cut(target_block, lambda l2, b, i, key=key: l2 is not None and l2.key() == key, start=start)
+            if ok and cut:
+                out.append(lit)
+                seen.add(key)
+        if expand_locals:
+            work = list(out)
+            defs = {}
+            for lhs, rhs, st in self.fn.assignments():
+                nm = lhs["name"] if isinstance(lhs, dict) else (lhs.strip().j.get("name") if lhs.strip().k == "DeclRefExpr" else None)
+                if nm:
+                    defs.setdefault(nm, []).append(rhs)
+            while work:
+                lit = work.pop()
+                if lit.kind != "truth" or not lit.pol or lit.node.k != "DeclRefExpr":
+                    continue
+                ds = defs.get(lit.node.j.get("name"), [])
+                if len(ds) != 1:
+                    continue
+
+                def conjuncts(e):
+                    e2 = e.strip()
+                    if e2.k == "BinaryOperator" and e2.j.get("op") == "&&":
+                        return conjuncts(e2.children[0]) + conjuncts(e2.children[1])
+                    return [e2]
+                for c in conjuncts(ds[0]):
+                    if any(x.k == "CallExpr" and x.j.get("callee") not in ("strcmp", "strncmp", "strlen", "strcasecmp", "memcmp") for x in c.walk()):
+                        continue
+                    l2 = norm_cond(c)
+                    if l2.key() not in seen:
+                        seen.add(l2.key())
+                        out.append(l2)
+                        work.append(l2)
+        return out
+
+    def returned_via(self, edge=None, start=None):
+        """Values the function can return on paths that use `edge` ((block, idx); None = any path) - a set of
+        enumerator names / integers, with None for a value that is not a known constant.  A returned local
+        variable is followed through constant assignments and refined by the tests on it."""
+        from . import query
+        ZERO = (0, "ECONF_SUCCESS")
+        out = set()
+        rets = [n for b in self.blocks.values() for n in b.elems if n.k == "ReturnStmt" and not n.j.get("inlined_return")]
+        tracked = set()
+        for r in rets:
+            if r.children and query.returned_constant(r) is None:
+                e = r.children[0].strip()
+                tracked.add(e.j["name"] if e.k == "DeclRefExpr" and e.j.get("dk") in ("local", "param") else None)
+        if not any(r.children and query.returned_constant(r) is None for r in rets):
+            tracked = {None}
+        tracked.add(None) if not tracked else None
+        for v in tracked:
+            TOP = "?"
+            seen = set()
+            work = [(self.entry if start is None else start, TOP, edge is None)]
+            while work:
+                b, val, passed = work.pop()
+                if (b, val, passed) in seen:
+                    continue
+                seen.add((b, val, passed))
+                blk = self.blocks[b]
+                done = False
+                for n in blk.elems:
+                    if v is not None and n.k == "BinaryOperator" and n.j.get("op") == "=" and render(n.children[0]) == v:
+                        c = query.returned_constant_expr(n.children[1])
+                        val = c if c is not None else TOP
+                    elif v is not None and n.k == "DeclStmt":
+                        for d in n.j.get("decls", []):
+                            if d["name"] == v:
+                                c = query.returned_constant_expr(self.fn.nodes[d["init"]]) if d.get("init", -1) >= 0 else None
+                                val = c if c is not None else TOP
+                    elif n.k == "ReturnStmt" and not n.j.get("inlined_return"):
+                        if passed:
+                            c = query.returned_constant(n)
+                            if c is not None:
+                                out.add(c)
+                            elif n.children and v is not None and render(n.children[0]) == v:
+                                out.add(None if val == TOP else val)
+                            elif n.children and v is None:
+                                out.add(None)
+                        done = True
+                        break
+                if done:
+                    continue
+                for i, s2 in enumerate(blk.succs):
+                    if s2 is None:
+                        continue
+                    lit = self.edge_lit(b, i)
+                    nv = val
+                    if lit is not None and v is not None:
+                        if lit.kind == "truth" and lit.atom == v:
+                            if lit.pol and val in ZERO:
+                                continue
+                            if not lit.pol:
+                                if val != TOP and val not in ZERO:
+                                    continue
+                                nv = "ECONF_SUCCESS" if val == TOP else val
+                        elif lit.kind == "eq" and v in (render(lit.lhs), render(lit.rhs)):
+                            other = lit.rhs if render(lit.lhs) == v else lit.lhs
+                            c = query.returned_constant_expr(other)
+                            if c is not None:
+                                same = (val == c) or (val in ZERO and c in ZERO)
+                                if lit.pol:
+                                    if val != TOP and not same:
+                                        continue
+                                    nv = c if val == TOP else val
+                                elif val != TOP and same:
+                                    continue
+                    work.append((s2, nv, passed or (edge is not None and (b, i) == tuple(edge))))
+        return out
 
     def some_path_avoiding(self, target_block, edge_pred, start=None):
         ok, cut = self.all_paths_cut(target_block, edge_pred, start)
